@@ -2,14 +2,15 @@
    gen_* are regenerated from /repo/pyorbital/{orbital,geoloc,astronomy}.py on every run.
    Inputs: (x, y, z) ECI position in km, d = days since J2000.  The geodetic-latitude loop is
    unrolled: *_p<k> is the result on the path that leaves the loop at its k-th exit test,
-   gen_lla_exit_p<k> that path's condition (k = 1..6; more iterations are outside the model and
-   reported by the correspondence run if the implementation ever needs them). *)
+   gen_lla_exit_p<k> that path's condition (k = 1..6).  C04_loop_terminates shows that for every position at
+   least 6378.135 km from the centre and off the polar axis one of the first FIVE exits is taken, so the
+   unrolling loses nothing there. *)
 From Coq Require Import Reals ZArith Lra.
 From Interval Require Import Tactic.
 From PyOrb.lib Require Import PyReal.
 From PyOrb.spec Require Import Spec_Geodesy.
 From PyOrb.gen Require Import Gen_astronomy Gen_orbital.
-From PyOrb.proofs Require Import P_Geodesy P_Roundtrip.
+From PyOrb.proofs Require Import P_Geodesy P_Roundtrip P_LatLoop.
 Open Scope R_scope.
 
 Theorem C04_lon_range : forall x y z d, -180 < gen_lla_lon x y z d <= 180.
@@ -45,6 +46,24 @@ Proof.
         (conj (roundtrip_p4 x y z d H) (conj (roundtrip_p5 x y z d H) (roundtrip_p6 x y z d H)))))).
 Qed.
 Print Assumptions C04_roundtrip.
+
+(* Termination.  The iteration is a contraction (factor < 0.0069) whose first step moves the latitude by less
+   than 0.0069 rad, so the test |lat - lat2| < 1e-10 succeeds at the fifth test at the latest. *)
+Theorem C04_loop_terminates : forall x y z d, 0 < x * x + y * y -> XKMPER * XKMPER <= x * x + y * y + z * z ->
+  gen_lla_exit_p1 x y z d \/ gen_lla_exit_p2 x y z d \/ gen_lla_exit_p3 x y z d \/
+  gen_lla_exit_p4 x y z d \/ gen_lla_exit_p5 x y z d.
+Proof. exact loop_exits_by_5. Qed.
+Print Assumptions C04_loop_terminates.
+
+(* total form of the round trip: an exit is taken and its result converts back to the position *)
+Theorem C04_roundtrip_total : forall x y z d, 0 < x * x + y * y -> XKMPER * XKMPER <= x * x + y * y + z * z ->
+  (gen_lla_exit_p1 x y z d /\ roundtrip_ok x y z d (gen_lla_lat_p1 x y z d) (gen_lla_alt_p1 x y z d)) \/
+  (gen_lla_exit_p2 x y z d /\ roundtrip_ok x y z d (gen_lla_lat_p2 x y z d) (gen_lla_alt_p2 x y z d)) \/
+  (gen_lla_exit_p3 x y z d /\ roundtrip_ok x y z d (gen_lla_lat_p3 x y z d) (gen_lla_alt_p3 x y z d)) \/
+  (gen_lla_exit_p4 x y z d /\ roundtrip_ok x y z d (gen_lla_lat_p4 x y z d) (gen_lla_alt_p4 x y z d)) \/
+  (gen_lla_exit_p5 x y z d /\ roundtrip_ok x y z d (gen_lla_lat_p5 x y z d) (gen_lla_alt_p5 x y z d)).
+Proof. exact roundtrip_total. Qed.
+Print Assumptions C04_roundtrip_total.
 
 Theorem C04_scale_factor : 0 < wgs84_A / XKMPER - 1 < 32 / 100000000.
 Proof. exact scale_factor. Qed.
